@@ -7,6 +7,8 @@ package main
 import (
 	"encoding/json"
 	"fmt"
+	avronull "github.com/philpearl/avro/null"
+	avrotime "github.com/philpearl/avro/time"
 	"hash/fnv"
 	"math/rand"
 	"reflect"
@@ -923,6 +925,8 @@ func c20Worker(arg json.RawMessage) (any, error) {
 			out = append(out, c20RunStep(st, regK, held))
 		case "anon":
 			out = append(out, []c20ContRes{{Container: "anon-check", SchemaErr: c20AnonCheck()}})
+		case "relib":
+			out = append(out, []c20ContRes{{Container: "anon-check", SchemaErr: c20RelibCheck()}})
 		default:
 			return nil, fmt.Errorf("unknown step %q", st.Op)
 		}
@@ -1175,7 +1179,7 @@ func (p *c20Parent) scenario(label string, steps []c20Step, noOracle bool) {
 		}
 		conts := results[ri]
 		ri++
-		if st.Op == "anon" {
+		if st.Op == "anon" || st.Op == "relib" {
 			r.Count("anon-registration")
 			if len(conts) == 1 && conts[0].SchemaErr != "" {
 				p.failOnce(-1, "registration-of-unnamed-type", conts[0].SchemaErr, map[string]any{"scenario": label})
@@ -1543,6 +1547,9 @@ func runC20(r *Run) {
 	// RegisterSchema takes any reflect.Type: a registration for a type that is not a
 	// defined type ([16]byte, map[string]any) governs it like any other
 	p.scenario("unnamed-type-registration", []c20Step{{Op: "anon"}}, true)
+	// the library's own RegisterCodecs calls are registrations like any other: called again
+	// after an application registered something else for time.Time, they are the latest
+	p.scenario("library-registration-again", []c20Step{{Op: "relib"}}, true)
 	// registration only after a first codec was built without any
 	p.scenario("first-after-build", []c20Step{
 		{Op: "run", Containers: late, Seed: seed, N: nv, Hold: true},
@@ -1678,6 +1685,52 @@ func c20AnonCheck() string {
 		if schemaJSON(f.Type) != schemaJSON(want[i]) {
 			return fmt.Sprintf("field %s of a struct using a type with a registered schema is generated as %s, registered (in that position): %s", f.Name, schemaJSON(f.Type), schemaJSON(want[i]))
 		}
+	}
+	return ""
+}
+
+// c20RelibCheck (child): avrotime.RegisterCodecs / null.RegisterCodecs after an application's own
+// registration for the same types.
+func c20RelibCheck() string {
+	st := reflect.StructOf([]reflect.StructField{
+		{Name: "At", Type: rtTime, Tag: `json:"at"`}, {Name: "N", Type: rtNullInt, Tag: `json:"n"`}})
+	zero := reflect.New(st).Elem().Interface()
+	gen := func() (string, error) {
+		s, err := avro.SchemaForType(zero)
+		return schemaJSON(s), err
+	}
+	avrotime.RegisterCodecs()
+	avronull.RegisterCodecs()
+	lib, err := gen()
+	if err != nil {
+		return "SchemaForType with the library's registrations: " + err.Error()
+	}
+	used := 0
+	custom := func(s avro.Schema, typ reflect.Type, omit bool) (avro.Codec, error) {
+		used++
+		return avro.Int64Codec{}, nil
+	}
+	avro.Register(rtTime, custom)
+	avro.RegisterSchema(rtTime, avro.Schema{Type: "long"})
+	avro.Register(rtNullInt, custom)
+	avro.RegisterSchema(rtNullInt, avro.Schema{Type: "long"})
+	app, err := gen()
+	if err != nil || app == lib {
+		return fmt.Sprintf("an application registration for time.Time / avronull.Int does not govern schema generation: %v %s", err, app)
+	}
+	avrotime.RegisterCodecs()
+	avronull.RegisterCodecs()
+	again, err := gen()
+	if err != nil || again != lib {
+		return fmt.Sprintf("after RegisterCodecs was called again the generated schema is %s (%v); the library's registration (the latest) gives %s", again, err, lib)
+	}
+	s, _ := avro.SchemaForType(zero)
+	before := used
+	if _, err := s.Codec(zero); err != nil {
+		return "Schema.Codec after RegisterCodecs was called again: " + err.Error()
+	}
+	if used != before {
+		return "after RegisterCodecs was called again the superseded application builder is still consulted"
 	}
 	return ""
 }
